@@ -73,24 +73,4 @@ theorem reservoir_add_k {R : Type} (I : RngI R) (s s' : St R) (x : Nat) (h : Res
         all_goals (first | (cases h; rfl) | (cases h))
       · simp only [h3, if_false] at h; cases h; rfl
 
-/-- `Extend::extend` (`for elem in iter { self.add(elem) }`) as translated is the left fold of the model's `add` -/
-theorem reservoir_extend_eq {R : Type} (I : RngI R) (s : St R) (xs : List Nat) (hk : s.k * 4 < 2 ^ 64) :
-    reservoir_extend R I s.k s.rng s.res.toList s.i s.skipUntil xs =
-      match xs.foldlM (Reservoir.add I) s with
-      | none => Flow.panic
-      | some s' => Flow.cont (s'.rng, s'.res.toList, s'.i, s'.skipUntil) := by
-  unfold reservoir_extend
-  induction xs generalizing s with
-  | nil => simp [reservoir_extend_loop1]
-  | cons x xs ih =>
-    simp only [reservoir_extend_loop1, List.foldlM_cons, reservoir_add_eq I s x hk]
-    cases h : Reservoir.add I s x with
-    | none => simp [Flow.bind]
-    | some s' =>
-      have hk' : s'.k = s.k := reservoir_add_k I s s' x h
-      have := ih s' (by rw [hk']; exact hk)
-      rw [hk'] at this
-      simp only [Flow.bind_cont, Option.bind_eq_bind, Option.bind_some]
-      exact this
-
 end Pds.KernelTie
